@@ -346,7 +346,11 @@ func runSNPs(csnp bool, maxlen int, src types.SourceID, es []*packet.LSPEntry) (
 			}
 		}
 	}); panicked {
-		return "PANIC", true, &verdict{"panic:" + name, fmt.Sprintf("%d entries, maxPDULen %d: %v", len(es), maxlen, val)}
+		sig := "panic:" + name
+		if (csnp && maxlen < 51) || (!csnp && maxlen < 35) {
+			sig += ":nothing-fits"
+		}
+		return "PANIC", true, &verdict{sig, fmt.Sprintf("%d entries, maxPDULen %d: %v", len(es), maxlen, val)}
 	}
 	toks := []string{fmt.Sprintf("n=%d", len(pdus))}
 	var out []string
